@@ -4,6 +4,7 @@ From Coq Require Import List ZArith Bool Permutation Lia.
 From V Require Import UDial.Model UDial.Proofs.   (* C02's model of the dial: spec_state, run, edits, wf_spec *)
 From V Require Import Gen.Params Lib.Hex Wire.Varint USpec.Model USpec.Proofs USpec.ProofsShuffle
   USpec.ProofsWire USpec.ProofsFp USpec.ProofsDial.   (* [dial] below is USpec.Model.dial *)
+From V Require UFrames.Model UFrames.Proofs UPacker.Model UPacker.ProofsRandom USpec.ProofsBuilder.
 Import ListNotations.
 Open Scope Z_scope.
 
@@ -214,6 +215,55 @@ Theorem C11_fp_ping_mix_differs : forall mn mx, 0 <= mn -> ping_range_ok mn mx =
 Proof. exact ping_mix_differs. Qed.
 Print Assumptions C11_fp_ping_mix_differs.
 
+(** Round 4.  The frame-type set is DERIVED from C09's byte-exact model of
+    QUICRandomFrames.buildInternal (UFrames.Model.build_internal: counts, clamps, cuts, dry run,
+    PADDING, shuffle) on a slice C10's packer model may hand it (at most maxCryptoData bytes,
+    C10_random_split_exact), for every value of both randomness sources: PADDING always (at least
+    MinPADDING bytes, C10_random_payload_exact), CRYPTO always (C09_random_frames_counts), PING
+    iff MinPING >= 1 when the PING range is not mixed. *)
+Theorem C11_builder_frame_types : forall p data base bs us ws bs' us',
+  ProofsBuilder.builder_ok p -> ProofsBuilder.slice_ok p data base ->
+  UFrames.Model.build_internal p data base bs us = UFrames.Model.Ok (ws, bs', us') ->
+  forall t, In t (ProofsBuilder.wtypes ws) <-> In t (ProofsBuilder.builder_types p).
+Proof. exact ProofsBuilder.frame_types_from_builder. Qed.
+Print Assumptions C11_builder_frame_types.
+
+(** ... for every randomised builder of every built-in parrot (all seven fields generated from
+    QUICID2Spec into [uspec_parrot_builders]): its parameters are accepted, every payload it
+    builds shows exactly [builder_types], and two payloads -- different slices, offsets, draws --
+    show the same set.  C11_parrots_ping_stable is the PING part of this, read off the range
+    table; here it follows from the builder model. *)
+Theorem C11_fp_frame_types_from_builder : forall r, In r uspec_parrot_builders ->
+  let p := ProofsBuilder.rf_of r in
+  ProofsBuilder.builder_ok p /\
+  forall d1 b1 bs1 us1 ws1 r1 s1 d2 b2 bs2 us2 ws2 r2 s2,
+    ProofsBuilder.slice_ok p d1 b1 -> ProofsBuilder.slice_ok p d2 b2 ->
+    UFrames.Model.build_internal p d1 b1 bs1 us1 = UFrames.Model.Ok (ws1, r1, s1) ->
+    UFrames.Model.build_internal p d2 b2 bs2 us2 = UFrames.Model.Ok (ws2, r2, s2) ->
+    (forall t, In t (ProofsBuilder.wtypes ws1) <-> In t (ProofsBuilder.builder_types p)) /\
+    (forall t, In t (ProofsBuilder.wtypes ws1) <-> In t (ProofsBuilder.wtypes ws2)).
+Proof. exact ProofsBuilder.parrots_frame_types_from_builder. Qed.
+Print Assumptions C11_fp_frame_types_from_builder.
+
+(** Every field clienthellod hashes for the gathered Initial packets is a function of the spec
+    (the packer configuration [c] of C10's flight model and the builder parameters [p]), not of
+    the ClientHello length, the payload-length oracle, the slices or the draws: DCID and SCID
+    lengths and token presence are configuration fields (C10_cid_lengths, C10_token say how
+    the dial derives them from the spec); the first packet's number and its encoded length come
+    from C10_header_fields (pn = c_first, length = peekPnLen of the spec's list); the frame-type
+    list from C11_builder_frame_types.  [version] is the negotiated QUIC version (not a spec
+    field; constant per dial). *)
+Theorem C11_fp_features_deterministic : forall version c p helloLen plens pn pnLen h fs lf pk dl ix rp ws wss,
+  ProofsBuilder.builder_ok p ->
+  nth_error (UPacker.Model.flight c helloLen plens) 0 = Some (UPacker.Model.DG pn pnLen h fs lf pk dl ix rp) ->
+  Forall (ProofsBuilder.built_by p) (ws :: wss) ->
+  gci_features (ProofsBuilder.pkt_of version c pn pnLen ws :: map (fun w => ProofsBuilder.pkt_of version c 0 0 w) wss)
+  = Some (version, UPacker.Model.c_dcid c, UPacker.Model.c_scid c,
+          ProofsBuilder.pn_bytes (UPacker.Model.pnLenOf c 0) (UPacker.Model.c_first c),
+          dedup (isort (ProofsBuilder.builder_types p)), 0 <? UPacker.Model.c_tokLen c).
+Proof. exact ProofsBuilder.fp_features_deterministic. Qed.
+Print Assumptions C11_fp_features_deterministic.
+
 (** Non-vacuity. *)
 Example C11_ex_suppress :
   map pid (suppress [27; 4] [P 4 [1] true; P 58 [] false; P 27 [9] false; P 1 [2] true; P 89 [] false; P 26 [] false])
@@ -280,3 +330,19 @@ Example C11_ex_sattolo : (* Sattolo-admissible draws exist and move every such l
   ~ sattolo_admissible 3 (ident_draws 3) /\ shuffle [10; 20; 30; 40] (ident_draws 3) = [10; 20; 30; 40].
 Proof. split; [cbn; lia|]. split; [reflexivity|]. split; [cbn; lia | reflexivity]. Qed.
 Print Assumptions C11_ex_sattolo.
+
+Example C11_ex_builder : (* the Chrome_146 builder: a full first slice and a short second one under
+                            different oracle values are built, meet every hypothesis of
+                            C11_builder_frame_types, differ as frame lists and agree as sets *)
+  In (1, 4, 6, 14, 2, 6, 1215) uspec_parrot_builders /\
+  ProofsBuilder.slice_ok UPacker.ProofsRandom.ex_p (repeat 7 1145%nat) 0 /\
+  ProofsBuilder.slice_ok UPacker.ProofsRandom.ex_p (repeat 9 589%nat) 1145 /\
+  exists ws1 r1 s1 ws2 r2 s2,
+    UFrames.Model.build_internal UPacker.ProofsRandom.ex_p (repeat 7 1145%nat) 0
+      UPacker.ProofsRandom.ex_bs UPacker.ProofsRandom.ex_us = UFrames.Model.Ok (ws1, r1, s1) /\
+    UFrames.Model.build_internal UPacker.ProofsRandom.ex_p (repeat 9 589%nat) 1145
+      (skipn 300 UPacker.ProofsRandom.ex_bs) (skipn 50 UPacker.ProofsRandom.ex_us) = UFrames.Model.Ok (ws2, r2, s2) /\
+    dedup (isort (ProofsBuilder.wtypes ws1)) = [0; 1; 6] /\ dedup (isort (ProofsBuilder.wtypes ws2)) = [0; 1; 6] /\
+    ProofsBuilder.wtypes ws1 <> ProofsBuilder.wtypes ws2.
+Proof. exact ProofsBuilder.builder_example. Qed.
+Print Assumptions C11_ex_builder.
